@@ -81,6 +81,26 @@ def _guarding_tests(node, fi):
     return out
 
 
+def _tv(t, st, rv):
+    """Three-valued value of a test in the session state `st` (idling / has queued lines); None = unknown."""
+    if isinstance(t, ast.UnaryOp) and isinstance(t.op, ast.Not):
+        v = _tv(t.operand, st, rv)
+        return None if v is None else (not v)
+    if isinstance(t, ast.BoolOp):
+        vs = [_tv(v, st, rv) for v in t.values]
+        if isinstance(t.op, ast.And):
+            return False if any(v is False for v in vs) else (None if any(v is None for v in vs) else True)
+        return True if any(v is True for v in vs) else (None if any(v is None for v in vs) else False)
+    if isinstance(t, ast.Attribute) and norm(t.value) == rv:
+        if t.attr == "idling":
+            return st["idling"]
+        if t.attr == "pending_notifications":
+            return st["pending"]
+    if isinstance(t, ast.Call) and call_name(t) == "pending_expunges" and norm(call_recv(t)) == rv:
+        return None if st["pending"] else False
+    return None
+
+
 def r1_1(ctx):
     p = ctx.p
     sites = 0
@@ -112,7 +132,21 @@ def r1_1(ctx):
                 or any(isinstance(c, ast.Call) and call_name(c) == "pending_expunges" and norm(call_recv(c)) == rv for c in ast.walk(t))
             ]
             if state_guard:
-                ctx.ok("R1.1", where(fi), f"{site} on {rv} guarded by its idling/pending state: {norm(state_guard[0][0], 60)}")
+                # arm-exact: a direct push must be impossible while the session is *not idling and has queued lines*; queueing
+                # must be impossible while it *is idling* (three-valued evaluation of the enclosing tests in that state)
+                danger = {"idling": False, "pending": True} if site == "push" else {"idling": True, "pending": False}
+                possible = all(_tv(t, danger, rv) in ((True, None) if pol else (False, None)) for t, pol in guards)
+                if possible:
+                    ctx.bad(
+                        "R1.1", fi.module, fi.qual, f"{site} on {rv} reachable with idling={danger['idling']}, queued={danger['pending']}",
+                        ("untagged data can be pushed directly to a session that is not idling and still has lines queued: it overtakes the "
+                         "queued EXPUNGEs and the session's replayed view differs from the server's"
+                         if site == "push" else
+                         "untagged data can be queued for a session that is idling: it is not delivered until the session's next command"),
+                        n.lineno,
+                    )
+                else:
+                    ctx.ok("R1.1", where(fi), f"{site} on {rv} guarded by its idling/pending state: {norm(state_guard[0][0], 60)}")
             else:
                 ctx.bad(
                     "R1.1", fi.module, fi.qual, norm(n),
@@ -128,7 +162,13 @@ def r1_1(ctx):
     for n in body_walk(disp.node):
         if isinstance(n, ast.If) and any(isinstance(a, ast.Attribute) and a.attr == "idling" for a in ast.walk(n.test)) and not isinstance(n.test, ast.UnaryOp):
             push_in_true = any(isinstance(c, ast.Call) and is_push_call(c) for s in n.body for c in ast.walk(s))
-            pend_in_false = any(isinstance(c, ast.Call) and call_name(c) in ("extend", "append") and "pending_notifications" in norm(c.func) for s in n.orelse for c in ast.walk(s))
+            # queueing is lossless: the whole list is appended as it is (EXPUNGE lines are positional - two identical lines are
+            # two removals; filtering, de-duplicating or re-ordering changes what the session will replay)
+            pend_in_false = any(
+                isinstance(c, ast.Call) and call_name(c) in ("extend", "append") and "pending_notifications" in norm(c.func)
+                and len(c.args) == 1 and isinstance(c.args[0], ast.Name) and c.args[0].id == disp.node.args.args[1].arg
+                for s in n.orelse for c in ast.walk(s)
+            )
             push_in_false = any(isinstance(c, ast.Call) and is_push_call(c) for s in n.orelse for c in ast.walk(s))
             if push_in_true and pend_in_false and not push_in_false:
                 shape = True
@@ -517,12 +557,31 @@ def r1_5(ctx):
             ctx.bad("R1.5", fi.module, fi.qual, f"self.idling = {val}", what, fi.node.lineno, flow.fmt_path(g, w) if w else "")
 
 
+def r1_6(ctx):
+    """SELECT / EXAMINE give the session a fresh view (EXISTS from the current state).  Whatever was queued for the old view
+    must be dropped before that, unconditionally - also when the same mailbox is selected again: a queued EXPUNGE replayed onto
+    the fresh view removes a message the server still has."""
+    p = ctx.p
+    fi = p.func("client.Authenticated.do_select")
+    g = ctx.cfg(fi)
+    clears = {n.id for n in g.nodes if n.kind == "stmt" and isinstance(n.ast, ast.Assign) and norm(n.ast.targets[0]) == "self.pending_notifications" and isinstance(n.ast.value, ast.List) and not n.ast.value.elts}
+    sel = [n.id for n in g.nodes if n.ast is not None and n.kind in ("stmt", "with_enter") and any(call_name(c) == "selected" for c in calls_in(n.ast))]
+    ctx.require(sel, "do_select: call of Mailbox.selected() not found")
+    bad = [s_ for s_ in sel if flow.dominated_by(g, s_, lambda n: n in clears) is not None]
+    ctx.paths_explored += len(sel)
+    if clears and not bad:
+        ctx.ok("R1.6", where(fi), "pending_notifications is emptied on every path before the mailbox is (re)selected")
+    else:
+        ctx.bad("R1.6", fi.module, fi.qual, "self.pending_notifications = [] before selected()", "SELECT/EXAMINE can give the session a fresh view while lines queued for its old view are kept (e.g. when the same mailbox is selected again): the next flush replays a stale EXPUNGE onto the fresh view", fi.node.lineno)
+
+
 def run(ctx):
     ctx.do(r1_1)
     ctx.do(r1_2)
     ctx.do(r1_3)
     ctx.do(r1_4)
     ctx.do(r1_5)
+    ctx.do(r1_6)
     # shared necessary conditions decided by sibling modules (reported under this property too)
     from . import c03, c10
     ctx.do(c03.r3_1_2)
